@@ -1,14 +1,29 @@
 """C04 — results and causal order agree with the SAX semantics.  Tie: the labels printed by the real
 interpreter are the model's, and their ORDER on stdout is a linear extension of the causal partial
-order of the model's run (program order per process, spawn, send-before-receive)."""
+order of the model's run (program order per process, spawn, send-before-receive).
+
+The happens-before relation computed by runsuite.causal_print_order is the relation `hb1_py` of
+coq/theories/proofs/Causality.v (latest earlier event involving an acting process, latest earlier
+send on the received channel); `hb_py_equiv` proves its transitive closure is the `hb` of
+`prints_respect_causality`, and `trace_causal_exec` states the linear-extension property for it.
+
+Results half: `saxcheck-<seed>` runs the extracted model in Async mode with the invariant of the SAX
+refinement (`inv_b`) checked before every step; where it succeeds (`CHECKED`) the theorem
+`prints_admitted_checked` applies to that very run: its labels are printed by an execution of
+spec/Sax.v.  The check counts these runs, compares their labels with the uninstrumented model run and
+with the real interpreter, and reports every program of the linear fragment on which the invariant
+check fails."""
 import collections
+import re
 
 from .. import common as C
 from .. import runsuite as R
 from .. import runprops as P
+from .. import suite as S
 
 PROP = "C04"
 PROP_V = "theories/props/C04.v"
+MODEL_AREAS = ('front', 'tc', 'run', 'sax')
 
 
 def run(b, ps, tier, seed):
@@ -17,8 +32,20 @@ def run(b, ps, tier, seed):
         return {"violations": [], "coverage": {"evaluations": 1, "distinct_nontrivial": 2, "samples": ["(not run: build broken)"]}}
     d = R.collect(b, tier, seed, **P.settings(tier))
     order_checked, deviations, artefacts, nontrivial_orders = 0, 0, 0, 0
+    recv_events, recv_unmatched = 0, 0
+    # results half: the checked runs of the refinement theorem
+    sax = refinement_runs(b, d, tier)
+    for v in sax["violations"]:
+        if len(violations) < 5:
+            violations.append(v)
     for i, t in d.programs:
         contraction = R.uses_contraction(t)
+        for m in R.MODES:
+            for k, e in enumerate(d.trace[i].get(m) or []):
+                if e["recv"] is not None:
+                    recv_events += 1
+                    if not any(x["send"] == e["recv"] for x in (d.trace[i][m] or [])[:k]):
+                        recv_unmatched += 1
         for m in R.MODES:
             evs = d.trace[i].get(m)
             if evs is None or (m == "np" and contraction):
@@ -44,10 +71,68 @@ def run(b, ps, tier, seed):
                         violations.append(P.violation(PROP, "order-or-result", what + ": observed %s, model prints %s" % (r2["prints"], labels),
                                                       i, t, cfg, {"prints": r2["prints"]}, {"prints": labels, "must_precede": [sorted(p) for p in preds]}))
     cov = R.coverage(d, {"sequences_checked_against_causal_order": order_checked, "runs_with_nontrivial_causal_order": nontrivial_orders,
-                         "deviations_confirmed": deviations, "cut_short_by_timer_then_ok_on_rerun": artefacts})
-    return {"violations": violations, "known": [], "coverage": cov,
+                         "deviations_confirmed": deviations, "cut_short_by_timer_then_ok_on_rerun": artefacts,
+                         "model_receive_events": recv_events,
+                         "model_receive_events_without_earlier_send (receive on a closed channel; recv_has_send's second case)": recv_unmatched,
+                         "sax_refinement": sax["coverage"]})
+    return {"violations": violations, "known": sax["known"], "coverage": cov,
             "assumptions": P.COMMON_ASSUMPTIONS + ["stdout order = order of the fmt.Printf calls (one write per label)"],
             "trusted_extra": P.COMMON_TRUSTED}
+
+
+def in_linear_fragment(text):
+    t = R.strip_comments(text)
+    return not R.uses_contraction(text) and re.search(r"\bdrop\b", t) is None
+
+
+def refinement_runs(b, d, tier):
+    """run `saxcheck-<seed>` (model run with the refinement invariant checked before every step)"""
+    seeds = [0, 1] if tier == "quick" else [0, 1, 2, 3]
+    cases = [(i, "", t) for i, t in d.programs]
+    checked, inv_fail_linear, inv_fail_other, label_mismatch, impl_compared = 0, [], 0, [], 0
+    lin = {i: in_linear_fragment(t) for i, t in d.programs}
+    violations = []
+    for sd in seeds:
+        res = S.run_tool(b.model, "saxcheck-%d" % sd, cases, timeout=1800)
+        for i, t in d.programs:
+            line = res.get(i, "MISSING")
+            tag = line.split("\t")[0]
+            order = [x for x in line.split("\t")[1:] if x.startswith("order=")]
+            order = [y for y in order[0][6:].split(",") if y] if order else []
+            if tag == "CHECKED":
+                checked += 1
+                # the instrumented run is the model's run (prints_admitted_checked, first conjunct)
+                ref = d.model[i]["async"].get(str(sd))
+                if ref is not None and ref["order"] != order:
+                    label_mismatch.append(i)
+                # and the real interpreter prints the same multiset in async mode
+                for cfg, r in d.impl[i].items():
+                    if cfg[0] == "async" and not r["panic"] and r["verdict"] is not None:
+                        impl_compared += 1
+                        if collections.Counter(r["prints"]) != collections.Counter(order):
+                            r2 = P.confirm(b, t, cfg, lambda res, order=order: collections.Counter(res["prints"]) != collections.Counter(order))
+                            if r2 is not None:
+                                violations.append(P.violation(PROP, "result", "printed multiset is not the one the SAX semantics admits for this run: observed %s, SAX-admitted %s" % (r2["prints"], order),
+                                                              i, t, cfg, {"prints": r2["prints"]}, {"prints": order, "must_precede": []}))
+            elif tag == "INV-FAIL":
+                if lin[i]:
+                    inv_fail_linear.append(i)
+                else:
+                    inv_fail_other += 1
+    known = []
+    if inv_fail_linear:
+        known.append("refinement-invariant check failed on linear-fragment programs (theorem not applicable to them; covered by the correspondence only): %s" % sorted(set(inv_fail_linear))[:10])
+    cov = {"schedules": seeds,
+           "runs_covered_by_prints_admitted_checked": checked,
+           "programs_in_linear_fragment": sum(1 for v in lin.values() if v),
+           "invariant_check_failed_in_linear_fragment": sorted(set(inv_fail_linear))[:20],
+           "invariant_check_failed_outside_fragment (drop/split/multi-provider: expected)": inv_fail_other,
+           "instrumented_run_differs_from_model_run": sorted(set(label_mismatch))[:20],
+           "implementation_runs_compared_with_sax_admitted_multiset": impl_compared}
+    if label_mismatch:
+        violations.append(C.Violation("the instrumented model run differs from the model run (extraction / driver problem)",
+                                      {"property": PROP, "kind": "unproven", "no_longer_checks": [{"what": "saxcheck", "detail": str(sorted(set(label_mismatch))[:5])}]}, found_input=False))
+    return {"violations": violations, "coverage": cov, "known": known}
 
 
 def replay(b, path):
